@@ -80,7 +80,7 @@ package bcl
 //@   loop 1 step [C03,C04] results_only_grow_at_endblock: instr != opENDBLOCK ==> len(vm.result) == prev(len(vm.result)) && (forall i int :: 0 <= i && i < len(vm.result) ==> vm.result[i] == prev(vm.result[i]))
 //@   loop 1 step [C04] binding_only_set_by_bind: instr != opBIND ==> vm.binding == prev(vm.binding)
 //@   loop 1 step [C03] defblock_pushes_fresh_block: instr == opDEFBLOCK ==> vm.blockTos == prev(vm.blockTos) + 1 && vm.blockStack[vm.blockTos-1].Type == as_str(prev(vm.prog.constants[int(operand1(vm))])) && vm.blockStack[vm.blockTos-1].Name == as_str(prev(vm.prog.constants[int(operand2(vm))])) && isnew(vm.blockStack[vm.blockTos-1].Fields) && (forall k string :: !has(vm.blockStack[vm.blockTos-1].Fields, k)) && (forall i int :: 0 <= i && i < prev(vm.blockTos) ==> vm.blockStack[i] == prev(vm.blockStack[i]))
-//@   loop 1 step [C03,C02] setfield_writes_innermost_block: instr == opSETFIELD ==> vm.blockTos == prev(vm.blockTos) && vm.blockStack == prev(vm.blockStack) && has(vm.blockStack[vm.blockTos-1].Fields, as_str(prev(vm.prog.constants[int(operand1(vm))]))) && vm.blockStack[vm.blockTos-1].Fields[as_str(prev(vm.prog.constants[int(operand1(vm))]))] == prev(top(vm)) && top(vm) == prev(top(vm))
+//@   loop 1 step [C03,C02,C05] setfield_writes_innermost_block: instr == opSETFIELD ==> vm.blockTos == prev(vm.blockTos) && vm.blockStack == prev(vm.blockStack) && has(vm.blockStack[vm.blockTos-1].Fields, as_str(prev(vm.prog.constants[int(operand1(vm))]))) && vm.blockStack[vm.blockTos-1].Fields[as_str(prev(vm.prog.constants[int(operand1(vm))]))] == prev(top(vm)) && top(vm) == prev(top(vm))
 //@   loop 1 step [C03] endblock_nested_stores_child: instr == opENDBLOCK && prev(vm.blockTos) > 1 ==> vm.blockTos == prev(vm.blockTos) - 1 && !prev(has(vm.blockStack[vm.blockTos-2].Fields, childkey(vm.blockStack[vm.blockTos-1]))) && has(vm.blockStack[vm.blockTos-1].Fields, prev(childkey(vm.blockStack[vm.blockTos-1]))) && vm.blockStack[vm.blockTos-1].Fields[prev(childkey(vm.blockStack[vm.blockTos-1]))] == prev(VBlockOf(vm.blockStack[vm.blockTos-1])) && len(vm.result) == prev(len(vm.result))
 //@   loop 1 step [C03] endblock_toplevel_appends_result: instr == opENDBLOCK && prev(vm.blockTos) == 1 ==> vm.blockTos == 0 && len(vm.result) == prev(len(vm.result)) + 1 && vm.result[len(vm.result)-1] == prev(vm.blockStack[0]) && (forall i int :: 0 <= i && i < prev(len(vm.result)) ==> vm.result[i] == prev(vm.result[i]))
 // bind (C04)
